@@ -338,6 +338,8 @@ ThmMetaOps(m) ==
 (* states so that TLC's workers share the enumeration.                     *)
 CONSTANTS Alphabet,      \* representative bytes for the exhaustive short strings
           MaxShort,      \* all strings over Alphabet up to this length
+          Alphabet2,     \* a wider alphabet (adds \ space % + DEL), for shorter strings
+          MaxShort2,
           RunBytes,      \* bytes that occur in long runs (valid id characters)
           RunCounts,     \* run lengths
           SepBytes,      \* bytes that occur once between runs (separators, invalid bytes)
@@ -368,6 +370,7 @@ Seg == (RunBytes \X RunCounts) \cup (SepBytes \X {1})
 Seeds ==
     {[f |-> "edge",    x |-> <<>>]} \cup
     {[f |-> "short",   x |-> <<b>>]   : b \in Alphabet} \cup
+    {[f |-> "shortx",  x |-> <<b>>]   : b \in (IF MaxShort2 > 0 THEN Alphabet2 ELSE {})} \cup
     {[f |-> "byte",    x |-> <<k>>]   : k \in 0..15} \cup
     {[f |-> "runs",    x |-> s]       : s \in Seg} \cup
     {[f |-> "parts",   x |-> <<k>>]   : k \in DOMAIN Pool} \cup
@@ -393,6 +396,10 @@ GenEdge == /\ Seeded("edge")
 GenShort == /\ Seeded("short")
             /\ \E n \in 0..(MaxShort-1) : \E t \in [1..n -> Alphabet] :
                    Case("short", Org(seed.x \o t))
+
+GenShortX == /\ Seeded("shortx")
+             /\ \E n \in 0..(MaxShort2-1) : \E t \in [1..n -> Alphabet2] :
+                    Case("shortx", Org(seed.x \o t))
 
 \* every single byte, alone and next to a valid letter
 GenByte == /\ Seeded("byte")
@@ -424,7 +431,7 @@ GenMetaLen ==
              LET base == t \o <<COLON, 97, EQ>> \o Rep(48, seed.x[1]) \o tail
              IN  Case("metalen", Org(IF dup THEN base \o <<PIPE>> \o base ELSE base))
 
-Next == GenEdge \/ GenShort \/ GenByte \/ GenRuns \/ GenParts \/ GenParts2 \/ GenMeta \/ GenMetaLen
+Next == GenEdge \/ GenShort \/ GenShortX \/ GenByte \/ GenRuns \/ GenParts \/ GenParts2 \/ GenMeta \/ GenMetaLen
 
 Spec == Init /\ [][Next]_vars
 
